@@ -9,6 +9,8 @@ INVS = ['OncePerDefPerProcessor', 'NoProcessorNoBudget', 'BudgetKeptForLater', '
 
 HOST = '''
 RATE = 4
+size = 1000          # module globals of the same names as the function's locals: expressions are evaluated IN THE FRAME,
+text = '9.5'         # so the locals win
 
 
 def measured(n):
